@@ -140,9 +140,55 @@ def handler_sites(repo):
     return out
 
 
+def shared_table_mutations(repo):
+    """Every mutation of ``self.channel_events`` in transport.py (item assignment / deletion / pop / clear) with whether it
+    lies inside a ``self.lock`` region.  The dict is shared by the transport thread and the threads inside
+    ``open_channel``: an unlocked ``del`` on the caller's thread races the reply handler and raises KeyError on one
+    of the two threads."""
+    tree = ast.parse(open(os.path.join(repo, "paramiko", "transport.py")).read())
+    out = []
+
+    def is_ce(n):
+        return isinstance(n, ast.Subscript) and isinstance(n.value, ast.Attribute) and \
+            n.value.attr == "channel_events" and isinstance(n.value.value, ast.Name) and n.value.value.id == "self"
+
+    for fn in [n for n in ast.walk(tree) if isinstance(n, ast.FunctionDef)]:
+        par = {}
+        for n in ast.walk(fn):
+            for c in ast.iter_child_nodes(n):
+                par[c] = n
+
+        def locked(node):
+            x = node
+            while x in par:
+                p = par[x]
+                if isinstance(p, ast.Try) and any(isinstance(s, ast.Expr) and isinstance(s.value, ast.Call) and
+                                                  ast.unparse(s.value.func) == "self.lock.release" for s in p.finalbody) \
+                        and any(x is y for b in p.body for y in ast.walk(b)):
+                    return True
+                if isinstance(p, ast.With) and any(ast.unparse(i.context_expr) == "self.lock" for i in p.items):
+                    return True
+                x = p
+            return False
+
+        for n in ast.walk(fn):
+            kind = None
+            if isinstance(n, ast.Delete) and any(is_ce(t) for t in n.targets):
+                kind = "del"
+            elif isinstance(n, ast.Assign) and any(is_ce(t) for t in n.targets):
+                kind = "set"
+            elif isinstance(n, ast.Call) and isinstance(n.func, ast.Attribute) and n.func.attr in ("pop", "clear", "popitem") \
+                    and ast.unparse(n.func.value) == "self.channel_events":
+                kind = n.func.attr
+            if kind and fn.name != "__init__":
+                out.append({"func": fn.name, "how": kind, "safe": locked(n)})
+    return out
+
+
 def lean_table(repo):
     ss, fam = sites(repo)
     hs = handler_sites(repo)
+    ms = shared_table_mutations(repo)
     lines = ["/- GENERATED by pv/lib_excsites.py from paramiko/*.py — do not edit. -/",
              "namespace PV.Generated.C38", "",
              "structure Site where", "  file : String", "  func : String", "  how : String", "  safe : Bool",
@@ -157,5 +203,10 @@ def lean_table(repo):
               "def handlerSites : List Site := ["]
     lines.append(",\n".join('  { file := "transport.py", func := "%s", how := "%s", safe := %s }' %
                             (h["func"], h["how"], "true" if h["safe"] else "false") for h in hs))
+    lines += ["]", "",
+              "/-- every mutation of `self.channel_events` in transport.py (`how` = set | del | pop | clear; safe = under self.lock) -/",
+              "def channelEventMutations : List Site := ["]
+    lines.append(",\n".join('  { file := "transport.py", func := "%s", how := "%s", safe := %s }' %
+                            (m["func"], m["how"], "true" if m["safe"] else "false") for m in ms))
     lines += ["]", "", "end PV.Generated.C38", ""]
     return "\n".join(lines), ss + [dict(h, file="transport.py") for h in hs]
